@@ -20,20 +20,20 @@ TRUSTED = pc.TRUSTED_COMMON + ['interpreter stack depth and wall time are runtim
 ASSUMPTIONS = ['the escape-freedom theorem is conditional on the callees (start line/URI, header elements, decompress, RFC 2047, Trailer) raising only Invalid*/StatusException; that hypothesis is validated on every run, not proved']
 WITNESSES = []
 
-HOSTILE_HDRS = [b'Host: =?x', b'Host: =?utf-8?q?a?=', b'Host: a\nb', b'Host: \x00', b'Host: [::1', b'Host: [v1.x]', b'Host: a:99999', b'Host: .', b'Host: a..b', b'Host: xn--', b'Host: \xe4.example',
+HOSTILE_HDRS = [b'Host: a:' + b'1' * 4301, b'Host: a:65536', b'Host: a:0', b'Content-Length: ' + b'0' * 4301, b'Host: =?x', b'Host: =?utf-8?q?a?=', b'Host: a\nb', b'Host: \x00', b'Host: [::1', b'Host: [v1.x]', b'Host: a:99999', b'Host: .', b'Host: a..b', b'Host: xn--', b'Host: \xe4.example',
 	b'Content-Encoding: br', b'Content-Encoding: identity', b'Content-Encoding: compress', b'Content-Encoding: exi', b'Content-Encoding: gzip, deflate', b'Content-Encoding: =?utf-8?b?Z3ppcA==?=',
 	b'Content-Type: =?x?=', b'Content-Type: a/b; charset="', b'Content-Type: ;', b'Content-Type: text/plain; q=1; q=2', b'Content-Type: a/b; x*=utf-8\'\'%ff', b'Content-Type: a/b; x*=bogus\'\'a', b'Content-Type: a/b; x*0=a; x*2=b',
 	b'Transfer-Encoding: =?utf-8?q?chunked?=', b'Transfer-Encoding: chunked\x00', b'Content-Length: 99999999999999999999999', b'Content-Length: ' + b'9' * 5000, b'Content-Length: \xb2', b'Content-Length: =?utf-8?b?2aM=?=',
 	b'Trailer: =?x?=', b'Trailer: a b', b'Trailer: \xff', b'Trailer: "', b'Trailer: Foo;q="', b'Connection: Upgrade, HTTP2-Settings\r\nUpgrade: h2c\r\nHTTP2-Settings: =?x', b'Upgrade: =?utf-8?q?h2c?=',
 	b'Foo: =?utf-8?b?////?=', b'Foo: =?utf-8?b?!?=', b'Foo: =?utf-8?q?=?=', b'Foo: =?ascii?q?=ff?=', b'Foo: =?utf-16?b?AA?=', b'Foo: =?x-unknown?q?a?=']
-HOSTILE_TARGETS = [b'/%FF', b'/%c0%ae', b'/?a=%ff', b'/%', b'/%2', b'/a%00b', b'//', b'///a', b'http://', b'http://[', b'http://[::1', b'http://a:b/', b'http://a:99999/', b'http://\xff/', b'.example:80', b'http://.x/',
+HOSTILE_TARGETS = [b'http://a:' + b'1' * 4301 + b'/', b'a:' + b'7' * 4400, b'/%FF', b'/%c0%ae', b'/?a=%ff', b'/%', b'/%2', b'/a%00b', b'//', b'///a', b'http://', b'http://[', b'http://[::1', b'http://a:b/', b'http://a:99999/', b'http://\xff/', b'.example:80', b'http://.x/',
 	b'http://xn--/', b'/\xff', b'/?\x00', b'/?a=%00', b'/#', b'?', b'#', b'http:', b'http:/', b'ht!tp://a/', b'/' + b'a/' * 200, b'/' + b'../' * 50, b'*x', b'a:b:c', b'[::1]:80', b'http://a@b@c/', b'http://u:p@h/', b'\\', b'/\\..\\']
 
 
 def hostile_stream(rng, kind):
 	le = b'\r\n'
 	if kind == 'server':
-		line = b'%s %s HTTP/%s' % (rng.choice(streams.METHODS + [b'', b'G\x00T', b'\xff']), rng.choice(HOSTILE_TARGETS + streams.TARGETS), rng.choice([b'1.1', b'1.0', b'1.1', b'9.9', b'1.', b'x', b'1.1.1', b'01.01']))
+		line = b'%s %s HTTP/%s' % (rng.choice(streams.METHODS + [b'', b'G\x00T', b'\xff']), rng.choice(HOSTILE_TARGETS + streams.TARGETS), rng.choice([b'1.1', b'1.0', b'1.1', b'9.9', b'1.', b'x', b'1.1.1', b'01.01', b'1.' + b'1' * 4301, b'1' * 4301 + b'.1']))
 	else:
 		line = b'HTTP/%s %s' % (rng.choice([b'1.1', b'1.0', b'x', b'2']), rng.choice(streams.STATUS + [b'', b'abc', b'2000 X', b'-1 X', b'200\x00']))
 	hs = [rng.choice(HOSTILE_HDRS if rng.random() < .6 else streams.HDRS) for _ in range(rng.randint(0, 4))]
